@@ -1281,12 +1281,12 @@ theorem source_skel_enum_variant : ParseFacts.skel_enum_variant = [
   "endif"
 ] := rfl
 
-/-- `parse_signature` — model: (not modelled: entry point for registered signatures, same helper methods) -/
+/-- `parse_signature` — model: parseSignatureWith / parseSignature -/
 theorem source_skel_parse_signature : ParseFacts.skel_parse_signature = [
   "call:Self::run_parser(Self::signature,0,v0,v1)"
 ] := rfl
 
-/-- `signature` — model: (not modelled) -/
+/-- `signature` — model: signature -/
 theorem source_skel_signature : ParseFacts.skel_signature = [
   "self.take(Token::Keyword(Keyword::Fn))",
   "?",
